@@ -274,7 +274,9 @@ class Monitor(object):
                     ctx.violation('atomicity:refused-call-changed:%s:%s' % (name, '+'.join(snap_diff(pre['snap'], now))[:80]), case,
                                   'unchanged', snap_diff(pre['snap'], now))
                 elif self.rules:
-                    ctx.nt(('ref', st, name, pre['mr']))
+                    if ctx.nt(('ref', st, name, pre['mr'])):
+                        ctx.sample('refused-unchanged', {'state': st, 'call': [name, str(arg)], 'rule': pre['mr'], 'error': str(exc)[:80],
+                                                         'cards': {b: list(c) for b, c in sh.cards.items()}, 'heights': [str(h) for h in sh.heights]}, 12)
             else:
                 ctx.violation('exception-class:%s:%s' % (type(exc).__name__, name), self.describe(sh, name, arg), 'RuleViolation', repr(exc)[:200])
                 return
@@ -288,6 +290,8 @@ class Monitor(object):
                 ctx.count('unspecified.call-in-unspecified-region')
             else:
                 ctx.count('judged.rule-decision')
+                if accepted and len(sh.log) > 6:
+                    ctx.sample('accepted-and-allowed', {'state': st, 'call': [name, str(arg)], 'history_len': len(sh.log)}, 3)
         if not accepted:
             return
         # ---- accepted: extend the shadow log ------------------------------------------------
@@ -464,6 +468,8 @@ class Monitor(object):
                     ctx.violation('log-replay:differs:%s' % '+'.join(snap_diff(snap(comp), snap(d)))[:90], case, 'indistinguishable', snap_diff(snap(comp), snap(d)))
                 else:
                     ctx.count('judged.log-replay')
+                    if len(sh.log) > 8:
+                        ctx.sample('log-replay', {'history': [[m, str(v)] for m, v in sh.log], 'state': comp.state, 'refused_calls_in_between': sh.refused}, 3)
             except Exception as e:
                 ctx.violation('log-replay:raises:%s' % type(e).__name__, case, 'replayable', repr(e)[:160])
             # 2. card export / import
@@ -557,7 +563,8 @@ class Monitor(object):
                 ctx.violation('interleaving:different-outcome:%s' % what, dict(case, order=[[(m, b) for m, b in o] for o in order][-2:]), want, got)
                 return
         ctx.count('judged.reordered-state')
-        ctx.nt(('re', tuple(sh.log)))
+        if ctx.nt(('re', tuple(sh.log))):
+            ctx.sample('reordered', {'history': [[m, str(v)] for m, v in sh.log], 'orders_compared': len(orders), 'outcome': repr(want)[:200]}, 4)
 
     @staticmethod
     def interleavings(per):
